@@ -301,6 +301,20 @@ Definition rsplitspace (s : bytes) (max : Z) : list bytes :=
 
 Definition str_list (l : list bytes) : val := VList (map VStr l).
 
+(* rsplit(s, sep, max): for ; max != 0; max-- { i := LastIndex(s, sep); if i < 0 { break };
+     res = append(res, s[i+len(sep):]); s = s[:i] };  res = append(res, s); reverse(res) *)
+Fixpoint rsplit_loop (fuel : nat) (s sep : bytes) (max : Z) (res : list bytes) : outcome (list bytes) :=
+  match fuel with
+  | O => OutOfFuel
+  | S f =>
+      if max =? 0 then Ok (rev (res ++ [s]))
+      else
+        let i := last_index s sep in
+        if i <? 0 then Ok (rev (res ++ [s]))
+        else rsplit_loop f (substr s 0 i) sep (wrap64 (max - 1))
+                         (res ++ [substr s (i + blen sep) (blen s)])
+  end.
+
 (* string_split (also rsplit) *)
 Definition string_split (recv : bytes) (args : list val) (right : bool) : outcome val :=
   if negb (arity args 0 2) then Err else
@@ -316,13 +330,12 @@ Definition string_split (recv : bytes) (args : list val) (right : bool) : outcom
           match sep with
           | [] => Err
           | _ =>
-              if maxsplit <? 0 then Ok (str_list (go_split recv sep))
-              else if right then
-                let res := go_split recv sep in
-                let excess := Z.of_nat (length res) - maxsplit in
-                if excess >? 0 then
-                  Ok (str_list (join (firstn (Z.to_nat excess) res) sep :: skipn (Z.to_nat excess) res))
-                else Ok (str_list res)
+              if right then
+                match rsplit_loop (S (length recv)) recv sep maxsplit [] with
+                | Ok res => Ok (str_list res)
+                | Err => Err | Panic => Panic | OutOfFuel => OutOfFuel
+                end
+              else if maxsplit <? 0 then Ok (str_list (go_split recv sep))
               else Ok (str_list (go_split_n recv sep (wrap64 (maxsplit + 1))))
           end
       | Some _ => Err
